@@ -1,4 +1,4 @@
-\* (X1) (X2) (O): two nodes, two reservations (allocate-once or not), two pods
+\* (X1) (X2) (O): two nodes, two reservations (allocate-once or not), two pods; no deletion timestamps / completed pods (MC_index2 has them)
 SPECIFICATION Spec
 CONSTANTS
   Nodes = {"n1", "n2"}
@@ -8,8 +8,8 @@ CONSTANTS
   Reqs <- ReqsI
   PodAttr <- PA2
   TermPhases = {"Failed"}
-  TermVals = {FALSE, TRUE}
-  DeadVals = {FALSE, TRUE}
+  TermVals = {FALSE}
+  DeadVals = {FALSE}
   FixLedger = TRUE
   FixNominate = TRUE
   AllowMigrate = FALSE
